@@ -353,9 +353,6 @@ func (s *store) SeriesSort(ctx context.Context, indexQuery index.Query, orderBy 
 	default:
 		return nil, errors.Errorf("unsupported order by type: %v", orderBy.Type)
 	}
-	if orderBy.Sort == modelv1.Sort_SORT_DESC {
-		sortedKey = "-" + sortedKey
-	}
 	fields := make([]string, 0, len(fieldKeys))
 	for i := range fieldKeys {
 		fields = append(fields, fieldKeys[i].Marshal())
@@ -374,6 +371,7 @@ func (s *store) SeriesSort(ctx context.Context, indexQuery index.Query, orderBy 
 		fields:      fields,
 		reader:      reader,
 		sortedKey:   sortedKey,
+		desc:        orderBy.Sort == modelv1.Sort_SORT_DESC,
 		size:        preLoadSize,
 		closer:      s.closer,
 		ctx:         ctx,
